@@ -385,6 +385,11 @@ func c08LayerC(tier string, shard, nshard int, res *engine.JobResult) {
 			for oi, o := range optsets {
 				o.ThreshPair, o.ThreshTarget = 0.1, 10000
 				c := c08Case{Ref: "AAAAAAAA", Queries: q, Targets: targets, Opts: o, Table: (oi+idx)%2 == 0}
+				// every third case takes its inputs as the CSV that `updown list` derives from them (the
+				// statement is about the data, whichever of the two documented input forms carries it)
+				if (oi+idx)%3 == 0 {
+					c.QType, c.TType = "csv", "csv"
+				}
 				c08Check(c, res, false)
 				res.States++
 				if idx == 900 && oi == 2 {
